@@ -299,6 +299,8 @@ def eval_sheetnames(case) -> Outcome:
         out.labels.add("equal-after-truncation-or-sanitising")
     if any(len(l) > 31 for l in case["labels"]):
         out.labels.add("long")
+    if max(case["labels"].count(l) for l in case["labels"]) >= 10:
+        out.labels.add("same-label>=10-times")
     return out
 
 
@@ -331,7 +333,13 @@ def sheet_labels(draw):
     base = st.sampled_from(["Site", "Plant A", "Process Zone with a very long descriptive name", "A/B", "Unit[1]", "x:y", "q?", "star*", "back\\slash", "Z" * 40, "'quoted'", ""])
     kind = st.sampled_from(["Direct Integration", "Total Site Target", "Total Process Target"])
     lab = st.tuples(base, base, kind, st.sampled_from(["Shifted", "Real"])).map(lambda t: f"{t[0]} - {t[1]}/{t[2]} ({t[3]})")
-    return {"labels": draw(st.lists(st.one_of(lab, base, st.text(alphabet="ab:/ []*?\\'x", min_size=0, max_size=45)), min_size=1, max_size=12))}
+    labels = draw(st.lists(st.one_of(lab, base, st.text(alphabet="ab:/ []*?\\'x", min_size=0, max_size=45)), min_size=1, max_size=12))
+    # many zones whose sheet labels coincide after truncation: suffixes run into two and three digits
+    if draw(st.integers(0, 3)) == 0:
+        rep = draw(st.one_of(lab, base))
+        labels += [rep] * draw(st.sampled_from([9, 10, 11, 12, 25, 101]))
+        labels = draw(st.permutations(labels)) if len(labels) < 40 else labels
+    return {"labels": labels}
 
 
 PARTS = [
